@@ -86,6 +86,7 @@ class Capture:
         self.mode = mode
         self.main = main
         self.calls = []           # NRT: (n_elements,)   RT: (bytes, target)
+        self.sync_replies = 0
         itf = main._osc_interface
         self.itf = itf
         if mode == 'nrt':
@@ -98,7 +99,19 @@ class Capture:
             itf.send_bundle = send_bundle
         else:
             def _send(msg, target):
-                self.calls.append((bytes(msg.dgram), target))
+                data = bytes(msg.dgram)
+                self.calls.append((data, target))
+                # stand-in for the server: every '/sync id' is answered with
+                # '/synced id', fed through the interface's receive path
+                if b'/sync' in data:
+                    try:
+                        for mm in cmdref.flatten(osc.decode(data)):
+                            if mm.addr == '/sync' and mm.args:
+                                self.sync_replies += 1
+                                itf._handle_request(
+                                    osc.enc_msg('/synced', mm.args[0]), target)
+                    except osc.OscError:
+                        pass
             itf._send = _send
 
     def reset(self):
@@ -491,6 +504,75 @@ class Runner:
             self.aborted = True      # undocumented exception: stop the history here
         return rec
 
+    # ---- a bind block with sync points, inside a routine -----------------------------
+    def sync_task(self, prog, blk, done):
+        """Generator function for Routine.run: the documented form
+        `with s.bind(): ...; yield from s.sync(); ...`."""
+        def task():
+            idx = blk['first_index']
+            addr_before = self.server.addr
+            try:
+                with self.server.bind() as proxy:
+                    blk['addr_inside_is_proxy'] = self.server.addr is proxy
+                    for s, ops in enumerate(prog['sections']):
+                        if s > 0:
+                            el = prog['sync_elements'][s - 1]
+                            blk['syncs_started'] += 1
+                            if el is None:
+                                yield from self.server.sync()
+                            else:
+                                real = [[x.node_id if hasattr(x, 'node_id') else x
+                                         for x in self.real(mm)] for mm in el]
+                                blk['elements'].append(
+                                    [[mc.control_input(x, self.env) for x in mm]
+                                     for mm in el])
+                                yield from self.server.sync(elements=real)
+                            if el is None:
+                                blk['elements'].append(None)
+                            blk['syncs_done'] += 1
+                        sec = []
+                        blk['secs'].append(sec)
+                        for op in ops:
+                            rec = self.step(idx, op, True, None)
+                            idx += 1
+                            sec.append(rec)
+                            if self.aborted:
+                                raise Abort()
+                        if prog['raise_at'] == s:
+                            raise Boom()
+            except (Boom, Abort):
+                blk['failed'] = True
+            except Exception as e:        # noqa
+                blk['failed'] = True
+                blk['unexpected_escape'] = e
+            finally:
+                blk['call1'] = len(self.cap.calls)
+                blk['addr_restored'] = self.server.addr is addr_before
+                done.set()
+        return task
+
+    def run_sync(self, prog, clocks, wait=10.0):
+        """Pre-ops on the calling thread, then the block in a routine.
+        Returns False when the routine did not finish in time."""
+        import threading
+        idx = 0
+        for op in prog['pre']:
+            rec = self.step(idx, op, False)
+            idx += 1
+            self.stream.append(('op', rec))
+            if self.aborted:
+                return True
+        blk = {'secs': [], 'elements': [], 'failed': False, 'syncs_started': 0,
+               'syncs_done': 0, 'first_index': idx, 'call0': len(self.cap.calls),
+               'raise_at': prog['raise_at']}
+        done = threading.Event()
+        self.m.Routine.run(self.sync_task(prog, blk, done), clocks[prog['clock']])
+        if not done.wait(wait):
+            return False
+        self.stream.append(('syncblock', blk))
+        self.count('sync_blocks_failed' if blk['failed'] else 'sync_blocks_ok')
+        return True
+
     # ---- whole program --------------------------------------------------------------
     def run(self, prog):
         idx = 0
@@ -808,6 +890,116 @@ class Judge:
         for rec in recs:
             self.check_ledger(rec)
 
+    def check_sync_block(self, blk):
+        recs = [r for sec in blk['secs'] for r in sec]
+        first = recs[0] if recs else None
+        pseudo = first or {'index': blk['first_index'], 'op': {'op': 'bind-block-with-sync'}}
+        for rec in recs:
+            self.check_exception(rec)
+        if blk.get('unexpected_escape') is not None:
+            e = blk['unexpected_escape']
+            self.fail(f'C17/bind-sync/raises/{_site(e)}', pseudo, tb=short_tb(e))
+        if not blk.get('addr_inside_is_proxy', True):
+            self.fail('C17/bind/server-address-not-proxied-inside-block', pseudo)
+        if not blk['addr_restored']:
+            self.fail('C17/bind/server-address-not-restored/'
+                      + ('after-exception' if blk['failed'] else 'after-normal-exit'),
+                      pseudo)
+        # ---- observed traffic, split at the datagrams that carry /sync
+        got = self.packets[blk['call0']:blk['call1']]
+        wire_secs = [[]]          # per section: list of bundles (lists of Msg)
+        wire_elems = []           # per sync: messages that travelled with /sync
+        shape_problem = None
+        for g, target in got:
+            self.check_target(pseudo, target)
+            msgs = _msgs_of(g) if not isinstance(g, osc.Msg) else [g]
+            if any(mm.addr == '/sync' for mm in msgs):
+                if msgs[-1].addr != '/sync' or sum(mm.addr == '/sync' for mm in msgs) != 1:
+                    shape_problem = 'sync-not-last-in-its-bundle'
+                wire_elems.append([mm for mm in msgs if mm.addr != '/sync'])
+                wire_secs.append([])
+            else:
+                if not isinstance(g, osc.Bundle):
+                    shape_problem = 'section-sent-as-plain-message'
+                wire_secs[-1].append(msgs)
+        witness = {'wire': [g.plain() for g, _ in got], 'syncs': blk['syncs_started'],
+                   'raise_at': blk['raise_at']}
+        self.count('sync_points_observed', len(wire_elems))
+        if len(wire_elems) != blk['syncs_started']:
+            self.fail('C17/bind-sync/sync-count-differs', pseudo,
+                      syncs_on_wire=len(wire_elems), **witness)
+        # ---- what had to be sent: a section goes out at the sync point that
+        # ends it, the last one at block exit - unless the block raised
+        nsec = len(blk['secs'])
+        exp_secs = []
+        for k, sec in enumerate(blk['secs']):
+            sent = (k < nsec - 1) or not blk['failed']
+            exp_secs.append([(w, r) for r in sec if r['raised'] is None
+                             for w in r['expect'].messages()] if sent else [])
+        while len(exp_secs) < len(wire_secs):
+            exp_secs.append([])
+        flat_exp = [w for sec in exp_secs for w, _ in sec]
+        flat_wire = [mm for sec in wire_secs for b in sec for mm in b]
+        self.count('sync_block_messages_compared', len(flat_wire))
+        witness['expected_sections'] = mc.plain([[w for w, _ in sec] for sec in exp_secs])
+        lens_ok = all(sum(len(b) for b in ws) == len(es)
+                      for ws, es in zip(wire_secs, exp_secs))
+        if not lens_ok:
+            # greedy in-order alignment: which issued commands never arrived?
+            j = 0
+            lost = []
+            for w in flat_exp:
+                if j < len(flat_wire) and mc.match_message(w, flat_wire[j], _decode_blob) is None:
+                    j += 1
+                else:
+                    lost.append(w)
+            extra = flat_wire[j:]
+            if blk['failed'] and not lost and extra:
+                self.fail('C17/bind-sync/commands-sent-although-block-raised', pseudo,
+                          extra=[_show(x) for x in extra], **witness)
+            if lost and not extra:
+                firsts = [sec[0][0] for sec in exp_secs[1:] if sec]
+                pos = ('first-command-after-sync'
+                       if all(any(mc.plain(w) == mc.plain(f) for f in firsts)
+                              for w in lost)
+                       else 'other-position')
+                self.fail(f'C17/bind-sync/commands-lost/{pos}', pseudo,
+                          lost=mc.plain(lost), **witness)
+            if not lost and not extra:
+                self.fail('C17/bind-sync/grouping-differs-from-sync-points', pseudo,
+                          **witness)
+            dup = any(any(mc.match_message(w, x, _decode_blob) is None for w in flat_exp)
+                      for x in extra)
+            self.fail('C17/bind-sync/' + ('commands-duplicated' if dup and not lost
+                                          else 'commands-differ'), pseudo,
+                      lost=mc.plain(lost), extra=[_show(x) for x in extra], **witness)
+        if shape_problem:
+            self.fail(f'C17/bind-sync/{shape_problem}', pseudo, **witness)
+        for ws, es in zip(wire_secs, exp_secs):
+            if len(ws) > 1:
+                self.fail('C17/bind-sync/section-split-into-several-bundles', pseudo,
+                          **witness)
+            msgs = ws[0] if ws else []
+            pos = 0
+            for rec in _unique([r for _, r in es]):
+                wm = rec['expect'].messages()
+                seg = msgs[pos:pos + len(wm)]
+                pos += len(wm)
+                self.match_sequence(rec, wm, seg, False, got=witness['wire'])
+                for mm in seg:
+                    self.check_message(rec, mm)
+        for k, (el, wel) in enumerate(zip(blk['elements'], wire_elems)):
+            want = el or []
+            if len(want) != len(wel) or any(
+                    mc.match_message(w, x, _decode_blob) for w, x in zip(want, wel)):
+                self.fail('C17/bind-sync/sync-elements-differ', pseudo, sync_index=k,
+                          expected_elements=want, **witness)
+        for rec in recs:
+            self.check_ledger(rec)
+        self.count('sync_blocks_failed_checked' if blk['failed']
+                   else 'sync_blocks_ok_checked')
+        self.count('sync_blocks_checked')
+
     def match_block_segment(self, rec, wm, seg, unordered, g):
         try:
             self.match_sequence(rec, wm, seg, unordered, got=[g.plain()])
@@ -842,6 +1034,9 @@ class Judge:
                 self.check_packets_outside(item)
                 self.check_ledger(item)
                 self.count('ops_compared')
+            elif kind == 'syncblock':
+                self.check_sync_block(item)
+                self.count('ops_compared', sum(len(x) for x in item['secs']))
             else:
                 self._cur_block_recs = item['recs']
                 self.check_block(item)
@@ -854,6 +1049,14 @@ class Judge:
         if used != expected_calls:
             raise Violation('C17/wire/packets-outside-any-operation',
                             {'packets': used, 'attributed': expected_calls})
+
+
+def _unique(seq):
+    out = []
+    for x in seq:
+        if not any(x is y for y in out):
+            out.append(x)
+    return out
 
 
 def _show(mm):
